@@ -168,6 +168,25 @@ fn glyf_fault(rng: &mut Rng, data: &mut Vec<u8>, ext: &[(u32, usize, usize)]) ->
             Applied { desc: format!("loca[{}]={:#x}", k, v) }
         });
     }
+    // composite cycle surgery: look harder for a composite glyph (most fonts have few)
+    if rng.chance(1, 3) {
+        for _ in 0..64 {
+            let k = rng.below(n - 1);
+            let (a, b) = if long {
+                (be32(data, lo + 4 * k)? as usize, be32(data, lo + 4 * k + 4)? as usize)
+            } else {
+                (be16(data, lo + 2 * k)? as usize * 2, be16(data, lo + 2 * k + 2)? as usize * 2)
+            };
+            if b <= a || b > gl || b - a < 14 {
+                continue;
+            }
+            if (be16(data, go + a)? as i16) < 0 {
+                let target = if rng.bool() { k } else { rng.below(n - 1) };
+                put16(data, go + a + 12, target as u16);
+                return Some(Applied { desc: format!("glyf.composite-cycle glyph {} first component -> {}", k, target) });
+            }
+        }
+    }
     // a glyph's header / endPts / instructionLength / first flags, or composite records
     for _ in 0..8 {
         let k = rng.below(n - 1);
@@ -180,6 +199,13 @@ fn glyf_fault(rng: &mut Rng, data: &mut Vec<u8>, ext: &[(u32, usize, usize)]) ->
             continue;
         }
         let nc = be16(data, go + a)? as i16;
+        if nc < 0 && b - a >= 14 && rng.chance(1, 3) {
+            // composite cycle surgery: the first component refers to the glyph itself, or to another
+            // glyph (possibly a composite that includes this one)
+            let target = if rng.bool() { k } else { rng.below(n - 1) };
+            put16(data, go + a + 12, target as u16);
+            return Some(Applied { desc: format!("glyf.composite-cycle glyph {} first component -> {}", k, target) });
+        }
         let hdr = if nc >= 0 { 10 + 2 * nc as usize + 2 + 8 } else { b - a };
         let name = if nc >= 0 { "glyf.simple-header" } else { "glyf.composite" };
         return Some(hit(rng, data, go + a, go + a + hdr.min(b - a), name));
